@@ -1991,3 +1991,34 @@ def n_div_ceil(ex, callee, a, env):
         raise Panic('attempt to divide by zero')
     q = -(-x // y)
     return q if callee.endswith('div_ceil') else q * y
+
+
+@native(r'^<([iu](?:8|16|32|64|128|size)) as (TryFrom|TryInto)<([iu](?:8|16|32|64|128|size))>>::(try_from|try_into)$', 'integer TryFrom / TryInto')
+def n_int_try_from(ex, callee, a, env):
+    m = re.match(r'^<([iu](?:8|16|32|64|128|size)) as (TryFrom|TryInto)<([iu](?:8|16|32|64|128|size))>>', callee)
+    dst, src = (m.group(1), m.group(3)) if m.group(2) == 'TryFrom' else (m.group(3), m.group(1))
+    (ds, dw), (ss, sw) = int_info(dst), int_info(src)
+    dmin, dmax = (-(1 << (dw - 1)), (1 << (dw - 1)) - 1) if ds else (0, (1 << dw) - 1)
+    smin, smax = (-(1 << (sw - 1)), (1 << (sw - 1)) - 1) if ss else (0, (1 << sw) - 1)
+    v = deref(a[0])
+    err = Err(Adt('TryFromIntError', None, [UNIT]))
+    if isinstance(v, bool):
+        v = int(v)
+    if isinstance(v, int):
+        return Ok(v) if dmin <= v <= dmax else err
+    if not z3.is_bv(v):
+        raise Unsupported(f'integer conversion of {v!r}')
+    conds = []
+    if dmin > smin:
+        conds.append((v >= bvval(dmin & ((1 << sw) - 1), sw)) if ss else z3.UGE(v, bvval(max(dmin, 0), sw)))
+    if dmax < smax:
+        conds.append((v <= bvval(dmax, sw)) if ss else z3.ULE(v, bvval(dmax, sw)))
+    if conds and not ex.truth(And(*conds) if len(conds) > 1 else conds[0]):
+        return err
+    if dw > sw:
+        r = z3.SignExt(dw - sw, v) if ss else z3.ZeroExt(dw - sw, v)
+    elif dw < sw:
+        r = z3.Extract(dw - 1, 0, v)
+    else:
+        r = v
+    return Ok(r)
